@@ -128,6 +128,23 @@ func (w recWriter) Write(p []byte) (int, error) {
 	return len(p), nil
 }
 
+// saysInterrupted: f1 announced that the run was interrupted.
+func (r *Recorder) saysInterrupted() bool {
+	r.mu.Lock()
+	defer r.mu.Unlock()
+	for _, l := range r.Logs {
+		if strings.HasPrefix(l.Msg, "Interrupted") {
+			return true
+		}
+	}
+	for _, l := range r.Out {
+		if strings.Contains(l.Text, "Interrupted - ") {
+			return true
+		}
+	}
+	return false
+}
+
 func (r *Recorder) timeoutReported() bool {
 	r.mu.Lock()
 	defer r.mu.Unlock()
